@@ -186,6 +186,26 @@ func vfhC02RelateShapes() {
 	check("Covers", Covers, "T*****FF*", "*T****FF*", "***T**FF*", "****T*FF*")
 	check("Within", Within, "T*F**F***")
 	check("CoveredBy", CoveredBy, "T*F**F***", "*TF**F***", "**FT*F***", "**F*TF***")
+	// Crosses and Overlaps pick their pattern from the operands' dimensions
+	da2, db2 := highestDimensionIgnoreEmpties(a), highestDimensionIgnoreEmpties(b)
+	switch {
+	case da2 < db2:
+		check("Crosses", Crosses, "T*T******")
+	case da2 > db2:
+		check("Crosses", Crosses, "T*****T**")
+	case da2 == 1:
+		check("Crosses", Crosses, "0********")
+	default:
+		check("Crosses", Crosses)
+	}
+	switch {
+	case da2 == db2 && da2 != 1:
+		check("Overlaps", Overlaps, "T*T***T**")
+	case da2 == 1 && db2 == 1:
+		check("Overlaps", Overlaps, "1*T***T**")
+	default:
+		check("Overlaps", Overlaps) // mixed dimensions never overlap
+	}
 	dj, _ := Disjoint(a, b)
 	vfAssert(dj == !Intersects(a, b), "Disjoint is the negation of Intersects")
 	vfReach("end")
